@@ -270,9 +270,16 @@ class TablePulseTemplate(AtomicPulseTemplate, ParameterConstrainer):
         for channel, instantiated in instantiated_entries.items():
             final_entry = instantiated[-1]
             if final_entry.t < duration:
-                instantiated.append(TableWaveformEntry(duration,
-                                                       final_entry.v,
-                                                       TablePulseTemplate.interpolation_strategies['hold']))
+                if float(final_entry.t) == float(duration):
+                    # the same final time, once as an exact rational (entry '1/20') and once as a float (0.05): this
+                    # channel is not shorter. A padding entry would keep a held channel from being recognized as
+                    # constant and hold the final value of a 'hold'/'jump' entry at the very end (the first sample of
+                    # the time reversed table)
+                    instantiated[-1] = TableWaveformEntry(duration, final_entry.v, final_entry.interp)
+                else:
+                    instantiated.append(TableWaveformEntry(duration,
+                                                           final_entry.v,
+                                                           TablePulseTemplate.interpolation_strategies['hold']))
             instantiated_entries[channel] = instantiated
         return instantiated_entries
 
